@@ -172,6 +172,8 @@ pub struct Gen {
     /// warm-up cycles that leave their group alive (runs under group-slot pressure)
     pressure_left: usize,
     thorough: bool,
+    /// the right tree of the current merge episode gets a root with 12 to 15 kids
+    wide_h: bool,
 }
 
 pub fn pick_cfg(rng: &mut Rng, prop: &str, tier_thorough: bool) -> Cfg {
@@ -180,7 +182,10 @@ pub fn pick_cfg(rng: &mut Rng, prop: &str, tier_thorough: bool) -> Cfg {
         "C06" => rng.range(32, if tier_thorough { 256 } else { 96 }),
         "C11" => rng.range(4, 40),
         _ => {
-            if rng.chance(50, 100) {
+            if rng.chance(1, 40) {
+                // images beyond 64 KiB, allocator positions in the hundreds
+                rng.range(1_400, 2_400)
+            } else if rng.chance(50, 100) {
                 rng.range(2, 16)
             } else if rng.chance(80, 100) {
                 rng.range(17, 80)
@@ -193,8 +198,9 @@ pub fn pick_cfg(rng: &mut Rng, prop: &str, tier_thorough: bool) -> Cfg {
         n,
         cap,
         hash_seed: rng.next_u64(),
-        write_chunk: if rng.chance(1, 3) { rng.range(1, 300) } else { 0 },
-        read_chunk: if rng.chance(1, 3) { rng.range(1, 300) } else { 0 },
+        // (images of big graphs are not written a few bytes at a time: a storm of saves would take minutes)
+        write_chunk: if rng.chance(1, 3) { rng.range(1, 300) * if cap >= 1_000 { 64 } else { 1 } } else { 0 },
+        read_chunk: if rng.chance(1, 3) { rng.range(1, 300) * if cap >= 1_000 { 64 } else { 1 } } else { 0 },
         eintr_every: if rng.chance(1, 4) { rng.range(1, 9) } else { 0 },
         hash_xor: 0,
         contract: None,
@@ -343,6 +349,7 @@ impl Gen {
             bg_groups: if pressure { 13 } else { bg_groups },
             pressure_left,
             thorough,
+            wide_h: false,
             rng,
         }
     }
@@ -559,7 +566,37 @@ impl Gen {
                 self.queue.push_back(Step::Add { i, v: Id::V(var) });
                 Some(Step::NextId { i, var })
             }
-            Kind::NextOnly => Some(Step::NextId { i, var: view.fresh_var() }),
+            Kind::NextOnly => {
+                if m.cap >= 300 && !m.adoptive && self.rng.chance(1, 4) {
+                    // ids handed out and left unused, then a long run of vertices added by the caller
+                    // right at the allocator position, then the allocator has to step over the run
+                    let a = *self.rng.pick(&[0_usize, 1, 63, 130, 140, 200]);
+                    let run = *self.rng.pick(&[1_usize, 64, 127, 128, 129, 130, 200]);
+                    let mut pos = inst.next_v;
+                    for _ in 0..a {
+                        while m.is_present(pos) {
+                            pos += 1;
+                        }
+                        pos += 1;
+                    }
+                    if pos + run + 8 < m.cap {
+                        let var = view.fresh_var();
+                        for _ in 0..a {
+                            self.queue.push_back(Step::NextId { i, var });
+                        }
+                        for v in pos..pos + run {
+                            if !m.is_present(v) {
+                                self.queue.push_back(Step::Add { i, v: Id::L(v) });
+                            }
+                        }
+                        for _ in 0..3 {
+                            self.queue.push_back(Step::NextId { i, var });
+                        }
+                        return self.queue.pop_front();
+                    }
+                }
+                Some(Step::NextId { i, var: view.fresh_var() })
+            }
             Kind::Bind => {
                 for _ in 0..8 {
                     let (a, b) = (self.pick_present(m)?, self.pick_present(m)?);
@@ -631,6 +668,19 @@ impl Gen {
                         })
                         .collect();
                     if let Some(dst) = others.first() {
+                        // now and then both graphs first get the same short datum on the same
+                        // vertex, inline in one and heap-encoded in the other
+                        let dm = &view.insts[*dst].as_ref().unwrap().m;
+                        let shared: Vec<usize> = m.present.keys().copied().filter(|v| dm.is_present(*v) && m.can_put(*v) && dm.can_put(*v)).collect();
+                        if !shared.is_empty() && self.rng.chance(1, 2) {
+                            let v = *self.rng.pick(&shared);
+                            let n = 1 + self.rng.below(8);
+                            let d: Vec<u8> = (0..n).map(|_| self.rng.below(256) as u8).collect();
+                            let (x, y) = if self.rng.chance(1, 2) { (i, *dst) } else { (*dst, i) };
+                            self.queue.push_back(Step::PutRaw { i: y, v: Id::L(v), d: d.clone(), enc: 1 });
+                            self.queue.push_back(Step::CloneFrom { src: i, dst: *dst });
+                            return Some(Step::Put { i: x, v: Id::L(v), d });
+                        }
                         return Some(Step::CloneFrom { src: i, dst: *dst });
                     }
                 }
@@ -755,12 +805,14 @@ impl Gen {
                 if free.len() < 2 {
                     return None;
                 }
+                self.wide_h = view.cfg.n >= 13 && self.rng.chance(1, 5);
+                let wide = self.wide_h;
                 self.mode = Mode::MergeEp {
                     g: free[0],
                     h: free[1],
                     phase: 0,
-                    grow_g: self.rng.range(0, 8),
-                    grow_h: self.rng.range(0, 6),
+                    grow_g: if wide { self.rng.range(0, 3) } else { self.rng.range(0, 8) },
+                    grow_h: if wide { self.rng.range(12, 15) } else { self.rng.range(0, 6) },
                     prehistory: self.rng.chance(1, 3),
                     restart_before: self.faults_enabled && self.rng.chance(1, 4),
                     restart_after: self.faults_enabled && self.rng.chance(1, 4),
@@ -1370,7 +1422,7 @@ impl Gen {
     }
 
     /// Grow the tree in instance `i` by one vertex (or plant its root).
-    fn grow(&mut self, view: &View, i: usize, with_data: bool) -> Option<Step> {
+    fn grow(&mut self, view: &View, i: usize, with_data: bool, wide: bool) -> Option<Step> {
         let inst = view.insts[i].as_ref()?;
         let m = &inst.m;
         if m.present.is_empty() {
@@ -1383,8 +1435,15 @@ impl Gen {
         }
         m.tree_root()?;
         for _ in 0..8 {
-            let p = self.pick_present(m)?;
-            let l = self.label();
+            let mut p = self.pick_present(m)?;
+            let mut l = self.label();
+            if wide {
+                // every kid goes under the root, with labels of the root's own
+                p = m.tree_root()?;
+                if let Some(k) = (0..m.n).find(|k| m.kid(p, &PLabel::A(*k)).is_none()) {
+                    l = PLabel::A(k);
+                }
+            }
             if m.kid(p, &l).is_some() || m.present[&p].edges.len() >= m.n {
                 continue;
             }
@@ -1467,7 +1526,7 @@ impl Gen {
                     return Some(Step::Empty { i: h });
                 }
                 set(self, 0, grow_g - 1, grow_h, prehistory, reads);
-                self.grow(view, g, true)
+                self.grow(view, g, true, false)
             }
             1 => {
                 if view.insts[h].is_none() || view.insts[g].is_none() {
@@ -1494,7 +1553,7 @@ impl Gen {
                     return None;
                 }
                 set(self, 1, 0, grow_h.saturating_sub(1), false, reads);
-                self.grow(view, h, !reject)
+                self.grow(view, h, !reject, self.wide_h)
             }
             2 => {
                 // merge right after a recovery: save g and h, die, reload both
